@@ -6,7 +6,7 @@ import gen, t_api
 
 PID = "C05"
 LEVEL = "proof"
-ALPHA = ["US", "UE", "CI", "CF", "CS"]
+ALPHA = ["US", "UE", "CI", "CF", "CS", "IN"]
 
 
 def concretise(h):
@@ -60,7 +60,7 @@ def system_cyclic(rng):
     ecps = [gen.rand_ecp(rng, 1, p[1], nper=(1, 1), amin=0.4, amax=3.0), gen.rand_ecp(rng, 2, p[2], nper=(1, 1), amin=0.4, amax=3.0),
             gen.rand_ecp(rng, 1, p[0], nper=(1, 1), amin=0.4, amax=3.0)]
     return {"id": "syscyc", "extra": {"mshell": [1], "mecp_plus": [0]}, "shells": shells, "ecps": ecps,
-            "_disp": [(1, 0.35, -0.2, 0.15), (2, -0.25, 0.3, 0.1), (3, 0.1, 0.15, -0.3)], "_alpha": ["UB", "CI", "CF", "CS"], "_natoms": 3}
+            "_disp": [(1, 0.35, -0.2, 0.15), (2, -0.25, 0.3, 0.1), (3, 0.1, 0.15, -0.3)], "_alpha": ["UB", "CI", "CF", "CS", "IN"], "_natoms": 3}
 
 
 def write_system(path, s):
@@ -72,7 +72,7 @@ def write_system(path, s):
 
 def histories(rng, tier, alpha=ALPHA, short=False):
     hs = []
-    maxlen = 4 if tier == "quick" else 5
+    maxlen = 4 if tier == "quick" else 5       # with the six-letter alphabet: 1554 / 9330 histories
     if short:
         maxlen -= 1
     for n in range(1, maxlen + 1):
@@ -85,7 +85,7 @@ def histories(rng, tier, alpha=ALPHA, short=False):
     for _ in range(nrand):
         n = rng.randint(maxlen + 1, lmax)
         # compute-heavy random histories
-        hs.append([rng.choice(ups + ["CI", "CF", "CF", "CS", "CS"]) for _ in range(n)])
+        hs.append([rng.choice(ups + ["CI", "CF", "CF", "CS", "CS"] + (["IN"] if "IN" in alpha else [])) for _ in range(n)])
     return hs, maxlen
 
 
